@@ -974,7 +974,7 @@ func typeAssert(i *interpreter, instr *ssa.TypeAssert, itf iface) value {
 
 	if err != "" {
 		if !instr.CommaOk {
-			panic(err)
+			panic(runtimeErr(err))
 		}
 		return tuple{zero(instr.AssertedType), false}
 	}
